@@ -17,6 +17,12 @@
 //!   hold more than isize::MAX of them and occupies no memory):   case: mode layer op sk k     obs: class count touched
 //!   (layer / op 10|11 / sk as above; touched = 1 iff a byte of the 64-byte container changed)
 //!
+//! Suite C18arr: the ARRAY forms on zero-sized element types, `region.as_volatile_slice().get_array_ref::<Z>(off, n)` then
+//!   case: mode ps size off n zsel op i k     Z = [u8;0] | [u64;0] | [u128;0] (zsel 0|1|2)
+//!     op 0 copy_to_volatile_slice(region slice get_slice(i, k))  1 copy_to(buf of k)  2 copy_from(buf of k)  3 store(i)  4 load(i)
+//!        5 ref_at(i).to_slice().len()   6 to_slice().len()
+//!   obs:  class(0 Ok,1 Err,2 panic) count [changed byte offsets] [dirty pages]
+//!
 //! Observation does not use the accessors under test: all region memory is filled with FILL through
 //! the raw host pointer before the call and scanned afterwards; every page of every region's
 //! AtomicBitmap (clean before the call) is asked dirty_at afterwards; the caller's buffer / stream is
@@ -42,6 +48,7 @@ pub const SUITES: &[Suite] = &[
     Suite { name: "C18", gen, exec },
     Suite { name: "C18xen", gen: nogen, exec: noexec },
     Suite { name: "C18huge", gen: gen_huge, exec: exec_huge },
+    Suite { name: "C18arr", gen: gen_arr, exec: exec_arr },
 ];
 
 const FILL: u8 = 0xaa;
@@ -591,6 +598,135 @@ fn gen_huge(_rng: &mut Rng, _tier: Tier, emit: &mut dyn FnMut(Vec<Tok>)) {
             for sk in 0..=1u64 {
                 for k in [0u64, 1, 65, 1 << 32, im - 1, im, im + 1, im + 2, (1 << 63) + (1 << 62), u64::MAX - 1, u64::MAX] {
                     emit(vec![n(mode), n(layer), n(op), n(sk), n(k)]);
+                }
+            }
+        }
+    }
+}
+
+
+// ------------------------------------------------------------------------------------------ suite C18arr
+fn zst_buf<Z: ByteValued>(k: usize) -> Vec<Z> {
+    assert_eq!(std::mem::size_of::<Z>(), 0);
+    let mut v: Vec<Z> = Vec::new();
+    // SAFETY: a Vec of zero-sized elements has capacity usize::MAX and no storage; every [T;0] value is the same
+    unsafe { v.set_len(k) };
+    v
+}
+
+fn arr_forms<Z: ByteValued>(reg: &GuestRegionMmap<AtomicBitmap>, off: usize, nel: usize, op: u64, i: usize, k: usize) -> (u64, u64) {
+    let root = reg.as_volatile_slice().unwrap();
+    let arr = match util::catch(|| root.get_array_ref::<Z>(off, nel)) {
+        None => return (2, 0),
+        Some(Err(_)) => return (1, 0),
+        Some(Ok(a)) => a,
+    };
+    let r: Option<Result<u64, ()>> = match op {
+        0 => match root.get_slice(i, k) {
+            Err(_) => Some(Err(())),
+            Ok(d) => util::catch(|| {
+                arr.copy_to_volatile_slice(d);
+                Ok(0)
+            }),
+        },
+        1 => {
+            let mut buf = zst_buf::<Z>(k);
+            util::catch(|| Ok(arr.copy_to(&mut buf) as u64))
+        }
+        2 => {
+            let buf = zst_buf::<Z>(k);
+            util::catch(|| {
+                arr.copy_from(&buf);
+                Ok(k.min(nel) as u64)
+            })
+        }
+        3 => util::catch(|| {
+            arr.store(i, Z::zeroed());
+            Ok(0)
+        }),
+        4 => util::catch(|| {
+            let _ = arr.load(i);
+            Ok(0)
+        }),
+        5 => util::catch(|| Ok(arr.ref_at(i).to_slice().len() as u64)),
+        _ => util::catch(|| Ok(arr.to_slice().len() as u64)),
+    };
+    match r {
+        None => (2, 0),
+        Some(Err(())) => (1, 0),
+        Some(Ok(c)) => (0, c),
+    }
+}
+
+fn exec_arr(case: &[Tok]) -> Vec<Tok> {
+    let (ps, size, off, nel) = (case[1].u() as usize, case[2].u() as usize, case[3].u() as usize, case[4].u() as usize);
+    let (zsel, op, i, k) = (case[5].u(), case[6].u(), case[7].u() as usize, case[8].u() as usize);
+    if ps == 0 || size == 0 || size > (1 << 20) {
+        return bad();
+    }
+    let r = MmapRegionBuilder::new_with_bitmap(size, AtomicBitmap::new(size, NonZeroUsize::new(ps).unwrap()))
+        .with_mmap_prot(libc::PROT_READ | libc::PROT_WRITE)
+        .with_mmap_flags(libc::MAP_ANONYMOUS | libc::MAP_PRIVATE | libc::MAP_NORESERVE)
+        .build();
+    let reg = match r.ok().and_then(|r| GuestRegionMmap::new(r, GuestAddress(0)).ok()) {
+        Some(x) => x,
+        None => return bad(),
+    };
+    unsafe { std::ptr::write_bytes(reg.as_ptr(), FILL, size) };
+    reg.bitmap().reset();
+    let (cl, cnt) = match zsel {
+        0 => arr_forms::<[u8; 0]>(&reg, off, nel, op, i, k),
+        1 => arr_forms::<[u64; 0]>(&reg, off, nel, op, i, k),
+        _ => arr_forms::<[u128; 0]>(&reg, off, nel, op, i, k),
+    };
+    let mem = unsafe { std::slice::from_raw_parts(reg.as_ptr(), size) };
+    let changed: Vec<u128> = mem.iter().enumerate().filter(|(_, b)| **b != FILL).map(|(i, _)| i as u128).collect();
+    let dirty: Vec<u128> = (0..size.div_ceil(ps)).filter(|p| reg.bitmap().dirty_at(p * ps)).map(|p| p as u128).collect();
+    vec![n(cl), n(cnt), Tok::L(changed), Tok::L(dirty)]
+}
+
+fn gen_arr(rng: &mut Rng, tier: Tier, emit: &mut dyn FnMut(Vec<Tok>)) {
+    let mode = crate::build_mode();
+    let imax = isize::MAX as u64;
+    for &(ps, size) in &[(1u64, 48u64), (7, 64), (64, 200), (4096, 8192 + 100), (4096, 4096)] {
+        let offs = [0u64, 1, 3, ps, ps + 1, size / 2, size - 1, size, size + 1, u64::MAX, 1 << 63];
+        for &off in &offs {
+            for &nel in &[0u64, 1, 5, 1000, imax, imax + 1, u64::MAX] {
+                for zsel in 0..3u64 {
+                    for op in 0..=6u64 {
+                        let small = [0u64, 1, 3, 7];
+                        let mut vars: Vec<(u64, u64)> = Vec::new(); // (i, k)
+                        match op {
+                            0 => {
+                                for &(d, l) in &[(0u64, 0u64), (0, size), (3, 5), (size, 0), (size - 1, 1), (size, 1), (ps, ps), (u64::MAX, 1)] {
+                                    vars.push((d, l));
+                                }
+                            }
+                            1 | 2 => {
+                                for &k in &small {
+                                    vars.push((0, k));
+                                }
+                                if nel <= 1000 {
+                                    vars.push((0, u64::MAX));
+                                    vars.push((0, imax + 1));
+                                }
+                            }
+                            3 | 4 | 5 => {
+                                if nel > 0 {
+                                    vars.push((0, 0));
+                                    vars.push((nel - 1, 0));
+                                    vars.push((rng.below(nel), 0));
+                                }
+                            }
+                            _ => vars.push((0, 0)),
+                        }
+                        for (i, k) in vars {
+                            if tier == Tier::Quick && zsel == 2 && !rng.chance(1, 2) {
+                                continue;
+                            }
+                            emit(vec![n(mode), n(ps), n(size), n(off), n(nel), n(zsel), n(op), n(i), n(k)]);
+                        }
+                    }
                 }
             }
         }
